@@ -12,6 +12,7 @@ hand-written models for all inputs (MiscTie.v):
 """
 import ast
 import os
+import re
 
 from .pure import Pure, Spec, V, NONE, TranslationError, bad, find_function, find_property
 
@@ -500,6 +501,31 @@ def flatten_helpers(module, fn, keep=(), depth=0):
         body, _ = _returns_to_assign(body, targets)
         return body
 
+    def hoist(stmts):
+        """t = f(g(..), ..) with g one of the functions kept as calls  ->  t = g(..); t = f(t, ..)"""
+        out = []
+        for st in stmts:
+            for fld in ("body", "orelse", "finalbody"):
+                if getattr(st, fld, None) and isinstance(getattr(st, fld), list) and not isinstance(st, (ast.FunctionDef, ast.ClassDef)):
+                    setattr(st, fld, hoist(getattr(st, fld)))
+            if isinstance(st, ast.Assign) and len(st.targets) == 1 and isinstance(st.targets[0], ast.Name) and not (isinstance(st.value, ast.Call) and isinstance(st.value.func, ast.Name) and st.value.func.id in keep):
+                t = st.targets[0].id
+                inner = [n for n in ast.walk(st.value) if isinstance(n, ast.Call) and isinstance(n.func, ast.Name) and n.func.id in keep]
+                others = [n for n in ast.walk(st.value) if isinstance(n, ast.Name) and n.id == t]
+                if len(inner) == 1 and not others:
+                    first = ast.copy_location(ast.Assign(targets=[ast.Name(id=t, ctx=ast.Store())], value=inner[0], lineno=st.lineno), st)
+
+                    class Rep(ast.NodeTransformer):
+                        def visit_Call(self, n):
+                            if n is inner[0]:
+                                return ast.copy_location(ast.Name(id=t, ctx=ast.Load()), n)
+                            return self.generic_visit(n)
+                    second = ast.copy_location(ast.Assign(targets=[ast.Name(id=t, ctx=ast.Store())], value=Rep().visit(st.value), lineno=st.lineno), st)
+                    out.extend([first, second])
+                    continue
+            out.append(st)
+        return out
+
     def walk(stmts, d):
         out = []
         for st in stmts:
@@ -521,7 +547,7 @@ def flatten_helpers(module, fn, keep=(), depth=0):
             out.extend(_split_tuple_assign(st))
         return out
     new = ast.parse(ast.unparse(fn)).body[0]
-    new.body = walk(new.body, 0)
+    new.body = hoist(walk(new.body, 0))
     return ast.fix_missing_locations(new)
 
 
@@ -558,7 +584,7 @@ def slice_split(core, reader_input):
             if isinstance(st, ast.Assign) and len(st.targets) == 1 and isinstance(st.targets[0], ast.Name) and st.targets[0].id == "analysis_window" \
                     and in_reader_branch is not None:
                 src = ast.unparse(st.value)
-                if in_reader_branch and src not in ("source.block_dur", "input.block_dur"):
+                if in_reader_branch and not re.fullmatch(r"[A-Za-z_][A-Za-z_0-9]*\.block_dur", src):
                     bad(st, "analysis_window of an AudioReader input is not source.block_dur")
                 if not in_reader_branch and "kwargs.get" not in src:
                     bad(st, "analysis_window is not taken from the keyword arguments")
@@ -1301,7 +1327,9 @@ def emit_group(repo, group):
     """Gallina text of one group, or raises TranslationError"""
     try:
         return GENERATORS[group](repo)
-    except (SyntaxError, KeyError, IndexError, AttributeError, OSError, RecursionError) as e:
+    except TranslationError:
+        raise
+    except Exception as e:      # fail closed: whatever goes wrong inside a translator is a rejection of the source, not a crash of the check
         raise TranslationError("%s: %s" % (type(e).__name__, e))
 
 
